@@ -22,7 +22,7 @@ PROFILES.update({
 PROFILES.update({
     'C11': P(8000, 60, 300000, 600),
     'C12': P(5000, 60, 250000, 600),
-    'C18': P(5000, 60, 200000, 600),
+    'C18': P(5000, 60, 200000, 600, required_probes=['routing-entries-visible-before-settle']),
 })
 
 # site-triggered fault enumeration: base programs, cap on points per base program, wall budget
